@@ -104,6 +104,15 @@ def run(ctx):
             continue
         st, _, _, _ = check_text(w["text"])
         ctx.finding_witness(fid, st in ("unreadable", "not-idempotent"))
+    # regressions of repaired defects (corpus/C01): the tool surfaces must report nothing for these canonical texts
+    import json as _json
+    from pathlib import Path as _Path
+    for cf in sorted((_Path(__file__).resolve().parents[2] / "corpus" / "C01").glob("*.json")):
+        c = _json.loads(cf.read_text())
+        ctx.count()
+        for surface, x, c1, c2 in tool_surfaces(ctx, [c["text"]]):
+            ctx.property_failure({"surface": surface, "input": x, "first": c1, "second": c2, "corpus": cf.name},
+                                 f"{surface}: canonical text refused or not stable (corpus {cf.name})")
     cases = doccases.gen_docs(ctx, ctx.scale(1200, 20000))
     inputs = []
     for d, cl in cases:
@@ -168,7 +177,7 @@ def run(ctx):
         fids = attribute(ctx, hm, doc) if doc is not None else []
         case = {"surface": surface, "input": x, "first": c1, "second": c2}
         if surface == "octave_write(content=canonical)" and c1.startswith("---\n") and "E_TOKENIZE" in (c2 or ""):
-            ctx.property_failure(case, f"{surface}: canonical text refused", finding=PFX + "write-strict-frontmatter")
+            ctx.property_failure(case, f"{surface}: canonical text refused")      # (the frontmatter refusal was repaired: c296b0f)
         elif surface == "octave_write+normalize" and cc is not None and "\r" in cc and st is None:
             ctx.property_failure(case, f"{surface}: canonical output not stable", finding=PFX + "cr-through-file")
         elif fids and st is not None:
